@@ -88,10 +88,21 @@ const OPTS: &[Opt] = &[
     Opt { key: "hooks", file_path: Some("hooks"), cli: "--hook", kind: Kind::HookMap, default: "", values: [("peer_connected=fscript", "peer_connected:cscript"), ("vpn_started=fs", "vpn_shutdown:cs")] },
 ];
 
+/// (file value, command-line value) of value variant 0, 1 (the table) or 2 (the SAME value in both sources: a list then holds
+/// an entry twice, a scalar is simply confirmed).
+fn vals(o: &Opt, variant: usize) -> (String, String) {
+    if variant < 2 {
+        return (o.values[variant].0.to_string(), o.values[variant].1.to_string());
+    }
+    let fv = o.values[0].0.to_string();
+    let cv = if o.kind == Kind::HookMap { fv.replacen('=', ":", 1) } else { fv.clone() };
+    (fv, cv)
+}
+
 /// presence: bit 0 = in file, bit 1 = on command line
 #[derive(Serialize, Deserialize, Clone, Debug)]
 pub struct MergeCase {
-    /// (option index, presence 0..=3, value variant 0/1)
+    /// (option index, presence 0..=3, value variant 0/1/2)
     pub opts: Vec<(usize, u8, usize)>,
 }
 
@@ -107,7 +118,8 @@ fn yaml_text(case: &MergeCase) -> String {
             Some(p) => p,
             None => continue,
         };
-        let fv = o.values[variant].0;
+        let fv_owned = vals(o, variant).0;
+        let fv = fv_owned.as_str();
         let (section, leaf) = match path.split_once('.') {
             Some((s, l)) => (Some(s), l),
             None => (None, path),
@@ -166,7 +178,7 @@ fn argv(case: &MergeCase) -> Vec<String> {
             Kind::FlagOn | Kind::FlagOff | Kind::CliFlag => v.push(o.cli.to_string()),
             _ => {
                 v.push(o.cli.to_string());
-                v.push(o.values[variant].1.to_string());
+                v.push(vals(o, variant).1.to_string());
             }
         }
     }
@@ -225,7 +237,8 @@ fn reference(case: &MergeCase) -> BTreeMap<&'static str, String> {
     }
     for &(i, presence, variant) in &case.opts {
         let o = &OPTS[i];
-        let (fv, cv) = o.values[variant];
+        let (fv, cv) = vals(o, variant);
+        let (fv, cv) = (fv.as_str(), cv.as_str());
         let in_file = presence & 1 != 0 && o.file_path.is_some();
         let on_cli = presence & 2 != 0;
         let val = match o.kind {
@@ -388,7 +401,7 @@ fn merge_cases(tier: Tier) -> (Vec<MergeCase>, Vec<MergeCase>, Vec<MergeCase>) {
     let mut single = vec![];
     for i in 0..n {
         for p in 0..4u8 {
-            for variant in 0..2 {
+            for variant in 0..3 {
                 single.push(MergeCase { opts: vec![(i, p, variant)] });
             }
         }
@@ -424,7 +437,7 @@ fn merge_cases(tier: Tier) -> (Vec<MergeCase>, Vec<MergeCase>, Vec<MergeCase>) {
     } else {
         // quick: everything in the file + everything on the command line, and the four "all options" combinations
         for p in 1..4u8 {
-            for variant in 0..2 {
+            for variant in 0..3 {
                 let opts: Vec<_> = (0..n).filter(|i| !["private_key", "statsd_prefix"].contains(&OPTS[*i].key) || p & 2 == 0).map(|i| (i, p, variant)).collect();
                 triples.push(MergeCase { opts });
             }
